@@ -39,6 +39,10 @@ for _p, _file, _ty, _acc in (('k_cmdline', 'command_line.rs', 'CommandLineTag', 
         _add(f'{_p}_parse_size{_s}', MB2, _file, 'bounded',
              f'declared size {_s} ({_s - 8} string bytes + padding + neighbour), 24-byte region, ' + REGION + ', all byte values; full UTF-8 oracle',
              [f'{_ty}::{_acc}', 'parse_slice_as_string'], ['C17', 'C04', 'C05'])
+    for _x in ('a', 'b'):
+        _add(f'{_p}_padding_nul_not_counted_{_x}', MB2, _file, 'bounded',
+             'declared size ' + ('11' if _x == 'a' else '13') + ', concrete non-NUL string part, padding and neighbouring tag symbolic (all byte values), 24-byte region',
+             [f'{_ty}::{_acc}', 'parse_slice_as_string'], ['C05', 'C17', 'C01'])
     _add(f'{_p}_new', MB2, _file, 'bounded', 'ASCII text (0x00..=0x7f, NUL allowed anywhere) of symbolic length 0..=9',
          [f'{_ty}::new', 'new_boxed', 'MaybeDynSized::as_bytes'], ['C07', 'C17'])
     for _l in (0, 3, 4):
@@ -53,6 +57,10 @@ _add('k_module_size_any', MB2, 'module.rs', 'bounded', 'declared size ANY u32, 2
      ['DynSizedStructure::ref_from_slice', 'DynSizedStructure::cast', 'ModuleTag::dst_len'], ['C05', 'C01'], CP)
 _add('k_module_parse_size19', MB2, 'module.rs', 'bounded', 'declared size 19 (3 string bytes + padding + neighbour), 32-byte region, ' + REGION + '; full UTF-8 oracle',
      ['ModuleTag::cmdline', 'parse_slice_as_string'], ['C17', 'C04', 'C05'])
+for _x in ('a', 'b'):
+    _add(f'k_module_padding_nul_not_counted_{_x}', MB2, 'module.rs', 'bounded',
+         'declared size ' + ('19' if _x == 'a' else '21') + ', concrete non-NUL string part, padding and neighbouring tag symbolic (all byte values), 32-byte region',
+         ['ModuleTag::cmdline', 'parse_slice_as_string'], ['C05', 'C17', 'C01'])
 _add('k_module_new', MB2, 'module.rs', 'bounded', 'all (start, end) with end > start; ASCII text (NUL allowed) of symbolic length 0..=9',
      ['ModuleTag::new', 'new_boxed', 'MaybeDynSized::as_bytes', 'ModuleTag accessors'], ['C07', 'C17'])
 _add('k_module_new_rejects_empty_range', MB2, 'module.rs', 'full', 'all (start, end) u32 pairs, fixed one-byte text',
